@@ -11,7 +11,7 @@ Keys and values are small naturals in the case; the runner turns them into Pytho
   value 0 -> None, value v -> v;  on_miss [a, b] is the function key k -> value a*k+b.
 Cache 0 is built by the constructor, every `copy` appends a cache.
 Optional fields: 'ik' = how the constructor's `values` are passed ('list' (default) | 'dict' | 'iter' | 'map');
-'omk': 'falsy' = on_miss is a callable object whose truth value is False (oracle only, known finding).
+'omk': 'falsy' = on_miss is a callable object whose truth value is False (a fixed finding: an on_miss like any other).
 'prog': {str(k): [act, ...]} makes on_miss RE-ENTRANT: before it returns / raises as 'om' says, on_miss(k) performs the
 acts (ops in the format below; the cache number is ignored) on the very cache whose lookup called it (the RLock
 permits that); an act that raises ends the callback with that exception; lookups among the acts may miss and call
@@ -19,7 +19,7 @@ on_miss again; 'depth' (default 3) is the nesting depth at which the callback ra
 Argument kinds of update / |=: 'dict' | 'list' | 'iter' | 'self' | 'map' (a mapping that is not a dict: keys() +
 __getitem__) | 'cache' (another cache of the world, op[3] = its number) | 'fail' (a generator that yields the pairs,
 then raises ValueError) | 'bad' (a list of the pairs followed by a malformed 1-tuple -> ValueError) | 'none'
-(update(**kw) without a positional argument: oracle only, known finding).  ==/!= operands: 'dict' | 'cache' |
+(update(**kw) without a positional argument; a fixed finding, inside the model as update((), **kw)).  ==/!= operands: 'dict' | 'cache' |
 'other' (op[3] selects None / 5 / 'x' / a list of pairs / []).
 """
 import itertools
@@ -263,7 +263,7 @@ class C02(Property):
             'scripted scenarios (falsy on_miss results, stored None, removal of a None-valued newest/oldest key then overflow, '
             'lookups on a not-yet-full LRU, update/|= with exactly the current contents after a reorder, equal contents in a '
             'different dict order, every argument kind overflowing with duplicates, one cache read into another then both '
-            'diverging, keyword arguments overlapping E; plus two oracle-only known-finding families), 2016 scripted re-entrant '
+            'diverging, keyword arguments overlapping E; plus the two families of the fixed findings: update(**kw) alone, a falsy callable as on_miss; get / setdefault / pop defaults identical to the stored value or to on_miss\'s result), 2016 scripted re-entrant '
             'on_miss scenarios (12 program kinds x 3 result kinds x every kind of lookup, loading max_size+1 keys, refresh, '
             'overflow, copy), 14 (thorough 60) big-'
             'capacity cases with bulk updates of 34-400 pairs, 300 adversarial scripts; (1) exhaustive: all histories of <=2 '
@@ -589,6 +589,14 @@ class C02(Property):
                     for val in (0, 5):
                         add(cls, mx, None, km, nk, None, fill[1:] + [['set', 0, 0, val], ['pop', 0, 0, val], ['get', 0, 0, 7], ['in', 0, 0]])
                         add(cls, mx, [2, 1], km, nk, [[0, val]], [['pop', 0, 0, val], ['pop', 0, 0, val], ['getitem', 0, 0]])
+                    # get / setdefault whose default is the very object stored under the key, or the very object
+                    # on_miss returns: found is a hit (no soft miss), answered by on_miss is a miss (no soft miss)
+                    for val in (0, 5):
+                        add(cls, mx, None, km, nk, None, fill[1:] + [['set', 0, 0, val], ['get', 0, 0, val], ['setdefault', 0, 0, val],
+                                                                     ['get', 0, mx + 1, val], ['setdefault', 0, mx + 1, val],
+                                                                     ['get', 0, mx + 1, val], ['pop', 0, mx + 1, val], ['in', 0, mx + 1]])
+                        add(cls, mx, [0, val], km, nk, None, [['get', 0, 0, val], ['setdefault', 0, 1, val], ['get', 0, 0, val],
+                                                              ['pop', 0, 0, val], ['get', 0, 0, val], ['len', 0]])
                     # a key whose value is None removed in every way (as newest / as oldest key), then overflow
                     for rm in (['pop', 0, 0], ['pop', 0, 0, 5], ['del', 0, 0], ['popitem', 0]):
                         add(cls, mx, None, km, nk, None, fill[1:] + [['set', 0, 0, 0], rm])
@@ -632,7 +640,7 @@ class C02(Property):
                     add(cls, mx, None, 's', nk, None, fill + [['update', 0, kind, arg, [[mx, 9], [0, 6], [mx + 1, 5]]], ['getitem', 0, 0]])
                     add(cls, mx, None, 's', nk, None, [['update', 0, kind, [] if kind == 'self' else [[1, 1]], [[1, 2], [0, 3]]], ['getitem', 0, 1]])
                 add(cls, mx, None, 's', nk, None, fill + [['copy', 0], ['update', 1, 'cache', 0, [[0, 6], [mx, 5]]], ['getitem', 1, 0]])
-                # --- oracle only (known findings): update(**kw) without a positional argument; a falsy callable as on_miss
+                # --- two formerly oracle-only families (fixed findings): update(**kw) without a positional argument; a falsy callable as on_miss
                 add(cls, mx, None, 's', nk, None, fill[:1] + [['update', 0, 'none', [], [[0, 5], [1, 2]]], ['getitem', 0, 0]])
                 for look in LOOKUPS:
                     add(cls, mx, [2, 1], 's', nk, None, [[look, 0, 0], [look, 0, 0], ['len', 0]], omk='falsy')
@@ -777,7 +785,7 @@ class C02(Property):
                 case['ik'] = rng.choice(('list', 'dict', 'iter', 'map'))
             yield self.probe(self.normalize(case), limit=8)
 
-    # ------------------------------------------------------------------ known findings (oracle-only regions)
+    # ------------------------------------------------------------------ predicates of the (now fixed) findings
     def _passes(self, case):
         self._quiet = True
         try:
@@ -831,8 +839,8 @@ class C02(Property):
         if name in ('update', 'ior'):
             kind, ps = a[0], a[1]
             if kind == 'none':
-                return None    # update(**kw) without a positional argument raises TypeError (known finding)
-            if kind == 'self':
+                arg = 'P:-'    # update(**kw) without a positional argument: E defaults to ()
+            elif kind == 'self':
                 arg = 'S'
             elif kind == 'cache':
                 arg = 'C:%d' % ps
@@ -867,8 +875,7 @@ class C02(Property):
         return None
 
     def line(self, case):
-        if case.get('omk'):
-            return None            # a falsy callable as on_miss: the code ignores it (known finding), outside the model
+        # ('omk': 'falsy' - a callable whose truth value is False - is an on_miss like any other since fix 358a3f4)
         init = case['init'] or []
         if (case.get('ik') or 'list') in DEDUP_KINDS:
             init = dedup(init)
